@@ -1,0 +1,50 @@
+//go:build verif
+
+package bmc
+
+import (
+	"time"
+
+	"github.com/gebn/bmc/internal/pkg/bcd"
+	"github.com/gebn/bmc/internal/pkg/complement"
+	"github.com/gebn/bmc/internal/pkg/transport"
+	"github.com/gebn/bmc/pkg/ipmi"
+
+	"github.com/cenkalti/backoff/v4"
+)
+
+// This file is only compiled with -tags verif. It exposes internals to the
+// verification harness in /verif and changes no existing behaviour.
+
+// VerifTransport is the interface a harness-supplied transport must satisfy.
+type VerifTransport = transport.Transport
+
+// NewV2SessionlessTransportForVerif builds a session-less connection over a
+// caller-supplied transport, optionally replacing the default exponential
+// back-off between retries.
+func NewV2SessionlessTransportForVerif(t transport.Transport, timeout time.Duration, b backoff.BackOff) *V2SessionlessTransport {
+	s := newV2SessionlessTransport(t, &dialConfig{timeout: timeout})
+	if b != nil {
+		s.V2Sessionless.backoff = b
+	}
+	return s
+}
+
+// VerifBCDDecode exposes internal/pkg/bcd.Decode.
+func VerifBCDDecode(b byte) uint8 { return bcd.Decode(b) }
+
+// VerifOnes exposes internal/pkg/complement.Ones.
+func VerifOnes(b byte) int8 { return complement.Ones(b) }
+
+// VerifTwos exposes internal/pkg/complement.Twos.
+func VerifTwos(bigEndian [2]byte, bits uint8) int16 { return complement.Twos(bigEndian, bits) }
+
+// VerifParseCipherSuiteRecordData exposes parseCipherSuiteRecordData.
+func VerifParseCipherSuiteRecordData(b []byte) ([]ipmi.CipherSuiteRecord, error) {
+	return parseCipherSuiteRecordData(b)
+}
+
+// VerifInboundSequence returns the last authenticated sequence number sent.
+func (s *V2Session) VerifInboundSequence() uint32 {
+	return s.AuthenticatedSequenceNumbers.Inbound
+}
